@@ -173,7 +173,7 @@ enum chunking { CH_MAX = 0, CH_ONE = 1, CH_RANDOM = 2, CH_HEADER_SPLIT = 3 };
 
 struct tevent { /* timed cache-side event */
 	time_t at;
-	uint8_t kind; /* 7 = raw bytes from cfg.rawgen delivered while the client idles; 1 = data change (param = how many records flip), 2 = serial notify, 3 = cache restart (new session), 4 = cache becomes version-0-only (param = v0_mode), 5 = cache obtains data */
+	uint8_t kind; /* 7 = raw bytes from cfg.rawgen delivered while the client idles; 1 = data change (param = how many records flip), 2 = serial notify, 3 = cache restart (new session), 4 = cache becomes version-0-only (param = v0_mode), 5 = cache obtains data, 8 = unsolicited prefix PDU whose header arrives now and whose rest arrives param seconds later (9, internal) */
 	uint32_t param;
 	bool done;
 };
@@ -320,6 +320,10 @@ struct sim {
 	struct wire wire;
 	/* counters */
 	long tcalls; /* transport calls so far (open/send/recv) */
+	pid_t fsm_tid; /* kernel id of the thread that made the latest transport call */
+	uint8_t slow_rest[40]; /* second part of an unsolicited PDU that is delivered in two parts (event kinds 8, 9) */
+	size_t slow_rest_len;
+	long slow_conn;
 	long parkable_calls;
 	long queries; /* complete queries seen */
 	long opens;
